@@ -81,7 +81,7 @@ def rand_grammar(rng, depth, opts=None):
         if o["names"] and rng.random() < 0.25:
             g = (rng.choice(["name", "namestar"]), rng.choice(NAMES), g)
         if o["actions"] and rng.random() < 0.15:
-            acts = [("keep",), ("upper",), ("const", ["K"]), ("loc",), ("join",), ("raise", "parse", 1), ("append", "Z"), ("conststr", "S")]
+            acts = [("keep",), ("upper",), ("const", ("K",)), ("loc",), ("join",), ("raise", "parse", 1), ("append", "Z"), ("conststr", "S")]
             if o["fatal"]:
                 acts += [("raise", "fatal", 2), ("cond", 2, True, 3), ("cond", 2, False, 4)]
             g = ("act", rng.choice(acts), g)
